@@ -165,6 +165,18 @@ def first_param_is_network(f):
     return False, "undocumented:" + p0.name
 
 
+def doc_first_param_classes(f):
+    """network classes the numpydoc TYPE of the first parameter names ({'Hypergraph'} for `H : Hypergraph`); empty when the
+    documentation does not name a class - the documented domain of the function"""
+    ps = sig_params(f) or []
+    if not ps:
+        return set()
+    for names, typ, desc in doc_params(inspect.getdoc(f)):
+        if ps[0].name in names:
+            return set(re.findall(r"\b(DiHypergraph|SimplicialComplex|Hypergraph)\b", typ))
+    return set()
+
+
 def doc_declares_mutation(f):
     """module-level function: the summary paragraph or the first parameter's entry says the argument is changed"""
     doc = inspect.getdoc(f) or ""
@@ -272,8 +284,39 @@ def scan_writes(f, pname, mutator_methods, inplace_functions, rebinding_counts, 
         else:
             yield t
 
+    # local names bound to one of the argument's own containers (`ms = H._edge[e]`, `tbl = self._node_attr`): a write
+    # through such a name is a write to the argument.  Only plain chains of private attributes / subscripts count
+    # (a call result such as `H.edges.members(e)` is a new object unless the callee itself is at fault).
+    aliases = {}
     for st in body:
         for node in ast.walk(st):
+            if isinstance(node, ast.Assign) and len(node.targets) == 1 and isinstance(node.targets[0], ast.Name):
+                r, chain = _root(node.value)
+                if r == pname and chain and "()" not in chain and chain[0].startswith("_"):
+                    aliases[node.targets[0].id] = ast.unparse(node.value)
+    aliases.pop(pname, None)
+
+    for st in body:
+        for node in ast.walk(st):
+            if aliases:
+                if isinstance(node, ast.AugAssign) and isinstance(node.target, ast.Name) and node.target.id in aliases \
+                        and isinstance(node.op, (ast.BitOr, ast.BitAnd, ast.Sub, ast.BitXor, ast.Add)):
+                    hits.append(f"{node.target.id} (= {aliases[node.target.id]}) {type(node.op).__name__}=")
+                tga = []
+                if isinstance(node, ast.Assign):
+                    tga = [x for t in node.targets for x in targets(t)]
+                elif isinstance(node, ast.AugAssign):
+                    tga = [node.target]
+                elif isinstance(node, ast.Delete):
+                    tga = list(node.targets)
+                for t in tga:
+                    r, chain = _root(t)
+                    if r in aliases and chain:
+                        hits.append(f"{ast.unparse(t)} (alias of {aliases[r]})")
+                if isinstance(node, ast.Call):
+                    r, chain = _root(node.func)
+                    if r in aliases and chain and chain[-1] in CONTAINER_MUTATORS and "()" not in chain[:-1]:
+                        hits.append(f"{ast.unparse(node.func)}() (alias of {aliases[r]})")
             tg = []
             if isinstance(node, ast.Assign):
                 tg = [x for t in node.targets for x in targets(t)]
@@ -310,7 +353,56 @@ def scan_writes(f, pname, mutator_methods, inplace_functions, rebinding_counts, 
     return hits
 
 
+# ----------------------------------------------------------------------------- option values spelled in the body
+
+def option_literals(f):
+    """{parameter name: [literal values the body compares that parameter with]} - `if weights == "normalized"`,
+    `if kind not in ("uniform", "top-2")`, `match mode: case "eq"` ... : the enumerated option values of a function,
+    read from its own source, so that the harness calls every one of them (new options included automatically)"""
+    fn = _fn_ast(f) if f is not None else None
+    if fn is None:
+        return {}
+    params = {a.arg for a in fn.args.posonlyargs + fn.args.args + fn.args.kwonlyargs}
+    out = {}
+
+    def lit(c):
+        if isinstance(c, ast.Constant):
+            return [c.value]
+        if isinstance(c, (ast.Tuple, ast.List, ast.Set)) and all(isinstance(x, ast.Constant) for x in c.elts):
+            return [x.value for x in c.elts]
+        if isinstance(c, ast.UnaryOp) and isinstance(c.op, ast.USub) and isinstance(c.operand, ast.Constant) \
+                and isinstance(c.operand.value, (int, float)):
+            return [-c.operand.value]
+        return []
+
+    def add(name, vals):
+        for v in vals:
+            if v is None or isinstance(v, (bool, str)) or (isinstance(v, (int, float)) and abs(v) <= 10):
+                if not any(type(v) is type(w) and v == w for w in out.setdefault(name, [])):
+                    out[name].append(v)
+
+    for node in ast.walk(fn):
+        if isinstance(node, ast.Compare):
+            sides = [node.left] + list(node.comparators)
+            for a, b in zip(sides, sides[1:]):
+                if isinstance(a, ast.Name) and a.id in params:
+                    add(a.id, lit(b))
+                if isinstance(b, ast.Name) and b.id in params:
+                    add(b.id, lit(a))
+        elif isinstance(node, ast.Match) and isinstance(node.subject, ast.Name) and node.subject.id in params:
+            for case in node.cases:
+                for pat in ast.walk(case.pattern):
+                    if isinstance(pat, ast.MatchValue):
+                        add(node.subject.id, lit(pat.value))
+                    elif isinstance(pat, ast.MatchSingleton):
+                        add(node.subject.id, [pat.value])
+    return out
+
+
 # ----------------------------------------------------------------------------- the table
+
+EXCLUDED = []      # module-level public functions NOT recognised as taking a network first, with the reason (filled by extract)
+
 
 def extract():
     import xgi
@@ -339,9 +431,11 @@ def extract():
 
     # --- module-level functions
     fns = []
+    EXCLUDED.clear()
     for qn, f in public_functions(xgi):
         isnet, how = first_param_is_network(f)
         if not isnet:
+            EXCLUDED.append(dict(name=qn, fn=f, how=how))
             continue
         hip, dip = in_place_of(sig_params(f))
         fns.append(dict(name=qn, kind="function", fn=f, hip=hip, dip=dip, doc_mut=doc_declares_mutation(f), how=how,
